@@ -92,12 +92,16 @@ struct tctx {
         uint64_t saved_rsp;     /* 152 */
         void *dump;             /* 160: 2240 bytes: gprs[16] (rax,rcx,rdx,rsi,rdi,r8,r9,r10,r11), zmm0-31, k0-7 */
         uint64_t zero_regs;     /* 168 */
+        uint64_t nstack;        /* 176: number of stack-passed arguments */
+        uint64_t sargs[32];     /* 184 */
 };
 void vtramp(struct tctx *t);
 #define TDUMP_SIZE 2240
 /* generic checked call; on a calling-convention violation emits a C18 record with `what` context */
 uint64_t tcall(const char *what, void *fn, uint64_t a0, uint64_t a1, uint64_t a2, uint64_t a3, uint64_t a4,
                uint64_t a5);
+/* any number of integer/pointer arguments (first 6 in registers, the rest on the stack) */
+uint64_t tcalln(const char *what, void *fn, int nargs, const uint64_t *args);
 extern long long g_tcalls;
 extern const char *g_tcall_ctx; /* free-text context for C18 reports (variant/alg) */
 #define TC0(w, f) tcall(w, (void *) (f), 0, 0, 0, 0, 0, 0)
